@@ -405,7 +405,9 @@ func report(prop, tier string, seed int, ip *InvProp, res *checkResult, partial 
 			nofail := true
 			if ob.Status == "refuted" {
 				payload["model"] = modelSummary(ob.Model, 200)
-				if replaysDone < maxReplays() {
+				if ob.Kind == "scan" {
+					payload["replay"] = "not applicable: a syntactic condition on the code's shape has no input to replay"
+				} else if replaysDone < maxReplays() {
 					replaysDone++
 					rp := tryReplay(vc, ob, payload)
 					nofail = !rp
